@@ -357,9 +357,10 @@ func buildFormula(root *Node, targets []*Node) string {
 					conj = append(conj, alt)
 					return conjoin(conj)
 				}
-				if canaryRun && (strings.Contains(n.Name, "#ensures") || strings.Contains(n.Name, "#frame") || strings.Contains(n.Name, "#wakes")) {
-					// the vacuity canary asks whether a return is reachable at all: a postcondition
-					// that fails must not make it look unreachable
+				if canaryRun {
+					// the vacuity canary asks whether a return is reachable at all under the
+					// preconditions, the path conditions and the assumed invariants: an obligation
+					// that fails must not make it look unreachable, so no obligation is assumed here
 					break
 				}
 				if n.T.S != "true" {
